@@ -744,12 +744,13 @@ def finish(ctx, ev, cov, cases, outs, codes, broken, corr_ran):
         json.dump(ev, f, indent=1, sort_keys=True)
     for line in reported:
         print(line)
+    if reported:
+        # a reported violation takes precedence: a broken implementation can also starve generator tags
+        return 1
     if machinery_broken:
         for m in machinery_broken:
             print("MACHINERY-BROKEN: property=%s %s" % (ctx.id, m), file=sys.stderr)
         return 2
-    if reported:
-        return 1
     print("OK property=%s tier=%s cases=%d obligations=%d wall=%.1fs" % (ctx.id, ctx.tier, len(cases), cov.get("obligations", 0), ev["wall_s"]))
     return 0
 
